@@ -1429,7 +1429,7 @@ class IndexedAdvancedHTMLParser(AdvancedHTMLParser):
 
             return elements
 
-        return AdvancedHTMLParser.getElementsWithAttrValues(self, attrName, values, root, useIndex)
+        return AdvancedHTMLParser.getElementsWithAttrValues(self, attrName, values, root)
 
 
     # TODO: Write indexed alternates for XPath?
